@@ -108,13 +108,14 @@ def v3 (mn : Mon) (i : In) (o : Obs) : List Verdict :=
 
 def holders (seen : List Seen) : Nat := (seen.filter (·.hasIp)).length
 
-def sweptNow (mn : Mon) : In → Nat
-  | .sweep => holders mn.prev
+/-- address-holding sessions a sweep pass removed (a sweep only removes sessions) -/
+def sweptNow (mn : Mon) (o : Obs) : In → Nat
+  | .sweep _ => holders mn.prev - holders o.seen
   | _ => 0
 
 /-- (C16/C05) every address recorded as allocated belongs to a live session, nothing is lost -/
 def v4 (mn : Mon) (i : In) (o : Obs) : List Verdict :=
-  let swept := sweptNow mn i
+  let swept := sweptNow mn o i
   let stranded := mn.stranded + swept
   (if swept > 0 then
     [("residue", "KF-pppoe-idle-leak", s!"the idle sweep removed {swept} session(s) without returning their address")]
@@ -132,7 +133,7 @@ def monitorCore (mn : Mon) (i : In) (o : Obs) : Mon × List Verdict :=
   ({ mn with owner := owner.filter (fun p => live.contains p.1),
              authOK := auth.filter (fun sid => live.contains sid),
              prev := o.seen,
-             stranded := mn.stranded + sweptNow mn i },
+             stranded := mn.stranded + sweptNow mn o i },
    v1 auth o ++ v2 auth o ++ v3 mn i o ++ v4 mn i o)
 
 /-! ### the model's own observation, structured -/
